@@ -476,3 +476,25 @@ From PyStoG Require Import CodecM CodecExec.
 Definition chk_codec (c : rawcase) : float :=
   let '(w, r) := codec_check (lnth (fl c) 0) (lnth (fl c) 1) (zs c) (lnth (fl c) 2) (lnth (fl c) 3) in
   if w && r then 0%float else if w then 1%float else PrimFloat.infinity.
+
+(* ================= command-line data flow (C19) =================
+   zs = [filter_on; lorch_on]
+   fl = [q; sq; r; g            (merged S(Q) and its transform, read from the master dictionaries)
+         fq; fsq; fr; fg        (what fourier_filter returned, if it ran)
+         lr; lg                 (what apply_lorch returned, if it ran)
+         La1; La2; La3          (arguments the entry point passed to apply_lorch)
+         Ka1; Ka2               (arguments passed to _add_keen_fq)
+         Ga1; Ga2]              (arguments passed to _add_keen_gr)
+   every comparison is exact: the arguments are the very arrays the model's flow selects *)
+From PyStoG Require Import CliM.
+Definition chk_cliflow (c : rawcase) : float :=
+  let f := fl c in
+  let filter_on := zb (znth (zs c) 0) in let lorch_on := zb (znth (zs c) 1) in
+  let fl1 := {| f_q := lnth f 0; f_sq := lnth f 1; f_r := lnth f 2; f_gr := lnth f 3 |} in
+  let fl2 := if filter_on then after_filter {| fo_q := lnth f 4; fo_sq := lnth f 5; fo_r := lnth f 6; fo_gr := lnth f 7 |} else fl1 in
+  let fl3 := if lorch_on then after_lorch fl2 (lnth f 8, lnth f 9) else fl2 in
+  let dl := if lorch_on
+            then fmax (devs dev_exact (f_q fl2) (lnth f 10)) (fmax (devs dev_exact (f_sq fl2) (lnth f 11)) (devs dev_exact (f_r fl2) (lnth f 12)))
+            else 0%float in
+  fmax dl (fmax (fmax (devs dev_exact (f_q fl3) (lnth f 13)) (devs dev_exact (f_sq fl3) (lnth f 14)))
+                (fmax (devs dev_exact (f_r fl3) (lnth f 15)) (devs dev_exact (f_gr fl3) (lnth f 16)))).
